@@ -319,13 +319,13 @@ theorem intFormula_symm (a b : Int) (rel abs : Nat) : intFormula a b rel abs = i
   have h1 : (b - a).natAbs = (a - b).natAbs := by omega
   rw [h1, Nat.max_comm]
 
-theorem intFormula_mono (a b : Int) {r1 r2 t1 t2 : Nat} (hr : r1 ≤ r2) (ht : t1 ≤ t2)
-    (h : intFormula a b r1 t1 = true) : intFormula a b r2 t2 = true := by
-  unfold intFormula intCore at *
-  cases hmu : rndMag f64 (max a.natAbs b.natAbs * 2 ^ UNIT) 0 with
+theorem intCore_mono (m d : Nat) {r1 r2 t1 t2 : Nat} (hr : r1 ≤ r2) (ht : t1 ≤ t2)
+    (h : intCore m d r1 t1 = true) : intCore m d r2 t2 = true := by
+  unfold intCore at *
+  cases hmu : rndMag f64 (m * 2 ^ UNIT) 0 with
   | none => rw [hmu] at h; simp [intCoreOpt] at h
   | some mu =>
-    cases hdu : rndMag f64 ((b - a).natAbs * 2 ^ UNIT) 0 with
+    cases hdu : rndMag f64 (d * 2 ^ UNIT) 0 with
     | none => rw [hmu, hdu] at h; simp [intCoreOpt] at h
     | some du =>
       rw [hmu, hdu] at h
@@ -333,6 +333,10 @@ theorem intFormula_mono (a b : Int) {r1 r2 t1 t2 : Nat} (hr : r1 ≤ r2) (ht : t
       refine leInf_trans h (maxInf_mono ?_ ?_)
       · exact rndMag_mono f64 UNIT (Nat.mul_le_mul_left _ hr)
       · simp [leInf, ht]
+
+theorem intFormula_mono (a b : Int) {r1 r2 t1 t2 : Nat} (hr : r1 ≤ r2) (ht : t1 ≤ t2)
+    (h : intFormula a b r1 t1 = true) : intFormula a b r2 t2 = true :=
+  intCore_mono _ _ hr ht h
 
 /-- reflexive whenever the magnitude converts (always, for ≤ 64-bit values) -/
 theorem intFormula_refl (a : Int) (rel abs : Nat) (h : a.natAbs ≤ 2 ^ 64) : intFormula a a rel abs = true := by
@@ -343,5 +347,55 @@ theorem intFormula_refl (a : Int) (rel abs : Nat) (h : a.natAbs ≤ 2 ^ 64) : in
   rw [hr]
   simp only [intCoreOpt]
   exact leInf_zero _
+
+
+/-! ### array level -/
+
+theorem all_range_congr (n : Nat) (f g : Nat → Bool) (h : ∀ i, i < n → f i = g i) :
+    (List.range n).all f = (List.range n).all g := by
+  rw [Bool.eq_iff_iff]
+  simp only [List.all_eq_true, List.mem_range]
+  constructor
+  · intro hf i hi; rw [← h i hi]; exact hf i hi
+  · intro hg i hi; rw [h i hi]; exact hg i hi
+
+theorem getD_mem {l : List Int} {i : Nat} (hi : i < l.length) : l.getD i 0 ∈ l := by
+  rw [List.getD_eq_getElem?_getD, List.getElem?_eq_getElem hi]
+  exact List.getElem_mem hi
+
+theorem intHalf_le_of_bits {bits : Nat} (h : bits ≤ 64) (x : Int)
+    (h1 : -(intHalf bits) < x) (h2 : x < intHalf bits) : x.natAbs ≤ 2 ^ 64 := by
+  have e : intHalf bits = ((2 ^ (bits - 1) : Nat) : Int) := by
+    unfold intHalf; push_cast; rfl
+  have hp : 2 ^ (bits - 1) ≤ 2 ^ 64 := Nat.pow_le_pow_right (by decide) (by omega)
+  rw [e] at h1 h2
+  omega
+
+/-- the integer branch of `fuzzyCheck`, with the shape test expressed by `shapesCompatible` -/
+theorem fuzzyCheck_int (rel abs : Tol) (a b : NdArr) (sg : Bool) (bits : Nat)
+    (ha : a.dtype = .int sg bits) (hb : b.dtype = .int sg bits) :
+    fuzzyCheck rel abs a b =
+      if shapesCompatible a.shape b.shape = true then
+        match intTolNum rel, intTolNum abs with
+        | some r, some t =>
+          .ok ((List.range a.data.length).all fun i =>
+            fuzzyEqInt1 sg bits (a.data.getD i 0) (b.data.getD i 0) r t)
+        | _, _ => .err
+      else .ok false := by
+  obtain ⟨hiff, _⟩ := reshapePair_spec a.shape b.shape
+  unfold fuzzyCheck
+  cases hp : reshapePair a.shape b.shape with
+  | mk s1 s2 =>
+    rw [hp] at hiff
+    simp only at hiff ⊢
+    by_cases hc : s1 = s2
+    · have hcomp : shapesCompatible a.shape b.shape = true := hiff.mp hc
+      subst hc
+      simp only [ne_eq, not_true_eq_false, if_false, hcomp, if_true]
+      rw [ha, hb]
+      simp only [not_true_eq_false, or_self, if_false]
+      cases rel <;> cases abs <;> simp [intTolNum]
+    · have hcomp : ¬ shapesCompatible a.shape b.shape = true := fun hh => hc (hiff.mpr hh)
+      simp [hc, hcomp]
 
 end Fc
